@@ -822,8 +822,14 @@ func (j *judge) scheduledPromise(tx *TxRec, c core.Change, pre, post core.Snapsh
 	wantTags := sr.JSONMap("promise_tags")
 	wantTags["resonate:schedule"] = sid
 	wantTags["resonate:invocation"] = "true"
-	if a.I("timeout") != old+sr.I("promise_timeout") || a.S("param_data") != sr.S("promise_param_data") || !sameMap(hdr, shdr) || !sameMap(tags, wantTags) {
-		j.add("C10", "S2", "", "promise %s of schedule %s occurrence %d stored as %s, want timeout %d, the configured parameter and tags %v", c.Key, sid, old-Base, core.RowString(a), old+sr.I("promise_timeout")-Base, wantTags)
+	// occurrence + configured timeout over the integers: a sum that does not fit is the largest int64 ("never"), not a
+	// wrapped number (a promise born timed out)
+	wantTimeout := old + sr.I("promise_timeout")
+	if pt := sr.I("promise_timeout"); pt > 0 && old > math.MaxInt64-pt {
+		wantTimeout = math.MaxInt64
+	}
+	if a.I("timeout") != wantTimeout || a.S("param_data") != sr.S("promise_param_data") || !sameMap(hdr, shdr) || !sameMap(tags, wantTags) {
+		j.add("C10", "S2", "", "promise %s of schedule %s occurrence %d stored as %s, want timeout %d, the configured parameter and tags %v", c.Key, sid, old-Base, core.RowString(a), wantTimeout-Base, wantTags)
 	}
 	cur, has := pre["schedules"][sid]
 	if !has || cur.I("created_on") != sr.I("created_on") || cur.I("sort_id") != sr.I("sort_id") {
